@@ -17,6 +17,8 @@ func CheckByID(id string) Check {
 	switch id {
 	case "C10":
 		return C10{}
+	case "C11":
+		return C11{}
 	case "C12":
 		return C12{}
 	case "C19":
